@@ -67,4 +67,25 @@ I_FirstByte(a0, align) == IF align > 0 THEN (align - (a0 % align)) % align ELSE 
 P_PixelInside(d, x, y, psz, upb, planes, planesize, sizeBytes) ==
     \A p \in 0..(planes - 1) :
         LET a == AddrOf(d, x, y) + p * planesize IN a >= 0 /\ a + psz <= sizeBytes * upb
+-----------------------------------------------------------------------------
+(* Chains of factories applied left to right to a w x h base view: dimensions *)
+(* of the result and, for its pixel (x,y), the coordinates in the base view.  *)
+(* Used for view kinds that have no addresses (virtual locators, dereference  *)
+(* adaptors): their pixels carry Gen(x,y) of the base coordinates.            *)
+Gen(x, y) == 7 + x + 100 * y
+RECURSIVE ChainDims(_, _, _)
+ChainDims(ops, w, h) == IF ops = <<>> THEN <<w, h>>
+                        ELSE LET o == Head(ops)  d == P_Dims(o.op, o.args, w, h) IN ChainDims(Tail(ops), d[1], d[2])
+RECURSIVE ChainSrc(_, _, _, _, _)
+ChainSrc(ops, w, h, x, y) ==
+    IF ops = <<>> THEN <<x, y>>
+    ELSE LET n == Len(ops)
+             front == SubSeq(ops, 1, n - 1)
+             o == ops[n]
+             d == ChainDims(front, w, h)
+             s == P_Src(o.op, o.args, d[1], d[2], x, y)
+         IN ChainSrc(front, w, h, s[1], s[2])
+P_ChainVals(ops, w, h, offset) == LET d == ChainDims(ops, w, h) IN
+    [i \in 1..(d[1] * d[2]) |-> LET s == ChainSrc(ops, w, h, (i - 1) % d[1], (i - 1) \div d[1]) IN Gen(s[1], s[2]) + offset]
+
 =============================================================================
